@@ -303,6 +303,14 @@ def r17_2(run):
            "the fused junctions are dropped after their references were redirected (elements are kept)", run.where(f, f.node))
     if cs:
         red = [s_ for s_ in r.stores() if s_.loops and s_.base[0] == "attr" and s_.base[2] == "loc"]
+        # the junction the references are redirected to must not be among the dropped ones
+        tgt = {key(s_.value) for s_ in red}
+        D = cs[0].args[1] if len(cs[0].args) > 1 else dict(cs[0].kw).get(dj.params()[1])
+        excl = D is not None and len(tgt) == 1 and any(
+            x[0] == "op" and x[1] == "-" and x[3][0] in ("set", "list", "tuple") and any(key(i) in tgt for i in x[3][1]) for x in walk(D))
+        run.ob("fuse_junctions|target-survives", excl,
+               "the junction the references are redirected to is removed from the collection of junctions that is dropped "
+               "(fusing a group that contains the target must keep the target)", run.where(f, cs[0].node), detail=show(D)[:200] if D else None)
         run.ob("fuse_junctions|redirect-before-drop", bool(red) and all(s_.seq < cs[0].seq for s_ in red),
                "references are redirected before the junctions are dropped", run.where(f, f.node))
     f = ix.func(TB + ".select_subnet")
@@ -386,4 +394,60 @@ def r17_3(run):
     run.floor(4)
 
 
-RULES = [("R17.1", r17_1), ("R17.2", r17_2), ("R17.3", r17_3)]
+def r17_4(run):
+    """each index is renumbered once: reindex_elements(net, E, lookup) also rewrites the index of res_E and E_geodata with E's
+    lookup, so a driver that visits a set of tables must not pass those dependent tables to the renumbering themselves (the
+    second renumbering applies a lookup of old labels to an already renumbered index -- KeyError or results attached to the
+    wrong rows, depending on the iteration order of the set)"""
+    ix = run.index
+    f = ix.func(TB + ".reindex_elements")
+    ps = f.params()
+    r = ANF(ix, f, param_alias=dict(zip(ps, ("net", "element", "lookup")))).run()
+    dependents = []
+    for s_ in r.stores():
+        if s_.index == (C(".index"),) and s_.base[0] == "idx" and s_.base[1] == ("n", "net"):
+            k = s_.base[2][0]
+            if k[0] == "cat" and len(k[1]) == 2:
+                if k[1][0][0] == "c" and k[1][1] == ("n", "element"):
+                    dependents.append(("prefix", k[1][0][1]))
+                elif k[1][1][0] == "c" and k[1][0] == ("n", "element"):
+                    dependents.append(("suffix", k[1][1][1]))
+    run.ob("reindex_elements|dependent-tables", ("prefix", "res_") in dependents and ("suffix", "_geodata") in dependents,
+           "tables whose index reindex_elements rewrites together with the element: %s" % dependents, run.where(f, f.node))
+    d = ix.func(TB + ".create_continuous_elements_index")
+    run.analysed(d)
+    r = ANF(ix, d).run()
+    inner = ix.func(TB + ".create_continuous_element_index")
+    cs = [c for c in r.calls() if c.fn == ("f", inner.qualname) and c.loops]
+    _sh(len(cs) >= 1, "create_continuous_elements_index calls create_continuous_element_index in a loop")
+    ppe = ix.func(TB + ".pp_elements")
+    for c in cs:
+        lv = c.args[1] if len(c.args) > 1 else None
+        _sh(lv is not None and lv[0] == "loop", "the table name passed on is the loop variable")
+        it = r.loops[lv[1]]["iter"]
+        with_res = False
+        for x in walk(it):
+            if x[0] == "call" and x[1] == ("f", ppe.qualname):
+                kw = dict(x[3])
+                pos = dict(zip(ppe.params(), x[2]))
+                v = kw.get("include_res_elements", pos.get("include_res_elements", C(False)))
+                with_res = with_res or v != C(False)
+        excluded = set()
+        for t, pol in c.cond:
+            for x in walk(t):
+                if x[0] == "call" and x[1][0] == "attr" and key(x[1][1]) == key(lv) and x[1][2] in ("startswith", "endswith") and x[2] \
+                        and x[2][0][0] == "c" and not pol:
+                    excluded.add(("prefix" if x[1][2] == "startswith" else "suffix", x[2][0][1]))
+                if x[0] == "cmp" and x[1] == "in" and key(x[2]) == key(lv) and x[3][0] in ("list", "tuple", "set") and not pol:
+                    for i in x[3][1]:
+                        if i[0] == "c" and isinstance(i[1], str) and i[1].endswith("_geodata"):
+                            excluded.add(("suffix", "_geodata"))
+        run.ob("create_continuous_elements_index|result-tables-not-renumbered-twice", (not with_res) or ("prefix", "res_") in excluded,
+               "result tables are renumbered only together with their element table (the set of visited tables contains res_ tables: %s; "
+               "excluded from the direct renumbering: %s)" % (with_res, sorted(excluded)), run.where(d, c.node))
+        run.ob("create_continuous_elements_index|geodata-tables-not-renumbered-twice", ("suffix", "_geodata") in excluded,
+               "geodata tables are renumbered only together with their element table", run.where(d, c.node))
+    run.floor(3)
+
+
+RULES = [("R17.1", r17_1), ("R17.2", r17_2), ("R17.3", r17_3), ("R17.4", r17_4)]
